@@ -60,7 +60,7 @@ def check_result(ctx, prog, res, spec, sampled=False, pid="C02", d21=True):
         fn = c["fn"]
         f = kind_of(prog, fn, res.name)
         fkind = f["kind"] if f else "inner"
-        may = fkind in synth.MAY
+        may = fkind in synth.MAY or c.get("may", False)
         ts = by_cid.get(cid, [])
         tag = f"{fkind}/{c['kind']}/{c['outcome']}"
         where = f"call #{cid} of {fn.__qualname__} [{tag}]"
